@@ -188,13 +188,12 @@ def segCount (i : Int) : List Int → Nat
 
 def sumInt (l : List Int) : Int := l.foldr (· + ·) 0
 
-/-- `rcount_i` as the code computes it: the number of frames the tokens `i` occupy, or -1 if `i`
-does not occur or one of its tokens does not have `0 ≤ start < end`.
-(NB the docstring only speaks of missing boundaries; a token with an *empty* segment
-`start = end`, which validation accepts, also gives -1.) -/
+/-- `rcount_i`: the number of frames the tokens `i` occupy according to their boundaries, or -1 if
+`i` does not occur or one of its tokens has no boundaries. (An empty segment `start = end`, which
+validation accepts, occupies 0 frames.) -/
 def rcountOf (rows : List Row) (i : Int) : Int :=
   let mine := rows.filter (fun r => r.tok = i)
-  if mine ≠ [] ∧ mine.all (fun r => decide (0 ≤ r.s ∧ r.s < r.e)) then sumInt (mine.map fun r => r.e - r.s)
+  if mine ≠ [] ∧ mine.all (fun r => decide (0 ≤ r.s ∧ r.s ≤ r.e)) then sumInt (mine.map fun r => r.e - r.s)
   else -1
 
 /-- The report as a recount of the directory `d`. -/
@@ -205,10 +204,10 @@ def recount (d : Dir) : List (String × Int) :=
   let maxRef := maxOr (-1) (rows.map (·.tok))
   [("num_utterances", (d.length : Int)), ("total_frames", ((d.map (·.feat.T)).sum : Int)),
    ("max_ali_class", maxAli), ("max_ref_class", maxRef),
-   -- NB -1 also when references exist but hold no token at all
-   ("total_tokens", if rows.length = 0 then -1 else (rows.length : Int))]
+   -- the sum of R over the directory if references are available, -1 if not
+   ("total_tokens", if d.any (fun u => u.ref.isSome) then (rows.length : Int) else -1)]
   ++ (match d.getLast? with
-      | some u => (u.feat.dims[1]?).toList.map fun F => ("num_filts", (F : Int))
+      | some u => (u.feat.dims[1]?).toList.map fun (F : Nat) => ("num_filts", (F : Int))
       | none => [])
   ++ classKeys "count_" "segs_" maxAli (fun i => (ali.count i : Int))
        (fun i => ((d.map fun u => segCount i u.aliVals).sum : Int))
